@@ -25,7 +25,9 @@ CHECKS = {
         'repeated-blank-tape infrul, recognisable by cycles = 0, implies the machine never halts), C02_norule_exact / C02_norule_eq_ref (no rule applied => the whole result record equals the rule-free '
         'simulator and hence the cell-by-cell reference, via C01), C02_prover_mono; machine-checked instance: the repo test machine halts at B3 with 2050 marks (C02_test_machine_halts, no hypothesis left). '
         'The property is decided on the explored programs: every undfnd/spnout verdict of the implementation is compared with a real run (slot, marks; steps when no rule was applied), every infrul with any '
-        'termination within the budget.',
+        'termination within the budget. KNOWN FINDING F14 (the property is false of the unchanged code): an inferred rule can be invalid at its last application '
+        '(guard count > |diff| too weak); runs whose verdict rests on such an application (found by single-application replays at the end of every application) are printed as KNOWN-FINDING when the '
+        'faithful model performs the same application, VIOLATION otherwise.',
    note=COMMON_NOTE + 'Theorems closed under the global context. u64 overflow panics of steps/rulapp (46+3 named machines at 10^4 cycles) are modelled and agree.',
    tech='Rocq/Coq conditional soundness theorems + verified replay checker + model/implementation correspondence (with application traces) + real-run oracle'),
  'C03': dict(cat='other', sec='DESIGN.md §6 C03, §12',
@@ -35,26 +37,30 @@ CHECKS = {
         'C03_replay_sound / C03_replay3_reached (the replay checker - the C01-verified compressed simulator run from the configuration before until it meets the configuration after - is sound), '
         'C03_trace_replayed_apps_real. Rule validity itself is not a theorem (the inference is a generalisation from four observations): each DISTINCT application reported by the bb_verif hook of the real '
         'run_prover whose estimated cost fits the budget is re-validated by the verified replay checker (others are counted as unreplayed, as the property quantifier allows); a replay that halts or spins out '
-        'before reaching the claimed configuration, a block count < 1 or a changed colour is a VIOLATION with the application as replay. The application trace itself is part of the model correspondence.',
+        'before reaching the claimed configuration, a block count < 1 or a changed colour is a VIOLATION with the application as replay. In addition the last three single applications of EVERY application '
+        '(whatever its size) are replayed one at a time; an application whose predecessor is a real run of c cycles and which is itself not reached within 20c+20000 cycles is reported - as KNOWN-FINDING F14 '
+        '(witness: a 6-state machine whose rule L0+4,R0-2, inferred on even counts, is applied to an odd one) when the faithful model performs the same application, as VIOLATION otherwise. '
+        'The application trace itself is part of the model correspondence.',
    note=COMMON_NOTE + 'Theorems closed under the global context. Hook: machine::verif::take_apps (cfg bb_verif).',
    tech='Rocq/Coq conditional theorem + per-application verified replay (Coq-proved checker) + model/implementation correspondence on application traces'),
  'C04': dict(cat='other', sec='DESIGN.md §6 C04, §5 F1/F2',
    text='The full statement is FALSE of the unchanged code and that is machine-checked: C04_bw_halt_refuted_F1, C04_bw_spin_refuted_F1, '
         'C04_bw_halt_refuted_F2, C04_stmt_refuted (witnesses by vm_compute on the faithful Gallina model of reason.rs, which is tied to the '
         'code on every run incl. Refuted step numbers and panics). Proved positively: depth monotonicity with the same step number (C04_bw_mono). '
-        'GUARDED GLOBAL THEOREM proved (Proofs/ReasonSound.v): C04_bw_refuted_sound_guarded - with the F1 branch repaired (model switch sw_nodrop), the halt table complete '
-        '(halt_box_ok: the F2 guard, decidable), A0 defined, and the decidable run guard bw_skips_justified (every configuration removed by the blanks pruning was an identical duplicate of a '
-        'frontier configuration; computed by an instrumented copy of the model loop, Model/ReasonInstr.v, proved to give the same answer; never violated on 2.4M refuted runs), a Refuted '
-        'answer implies the machine never halts / never erases the tape (no run guard needed) / never spins out; C04_halt_guards_necessary shows each static guard is needed. '
+        'GLOBAL THEOREM proved (Proofs/ReasonSound.v + ReasonSkips.v): C04_bw_refuted_sound_nodrop - for every table with pairwise distinct slots (every BTreeMap; C04_parsed_distinct_slots: every '
+        'parsed program), with the F1 branch repaired (model switch sw_nodrop), the halt table complete (halt_box_ok: the F2 guard, decidable) and A0 defined, a Refuted answer implies the machine '
+        'never halts / never erases the tape / never spins out. No run-time guard is left: C04_skips_always_justified proves that the blanks pruning only removes exact duplicates '
+        '(forward determinism of definite backward chains); C04_halt_guards_necessary and C04_skips_justified_needs_distinct_slots show each hypothesis is needed. So the only gaps between the '
+        'code and the property are the two recorded defects F1 and F2. '
         'Proved LOCALLY (Proofs/BackstepSound.v, 72 lemmas): C04_backstep_exact (a plain backward step is a sound over-approximation), C04_indef_covers (indefinite sweeps), '
         'C04_check_spinout_spec (exactly when the F1 branch fires), C04_plain_round_sound (one full round of the main loop covers the real predecessor outside the F1 branch), target '
-        'completeness. Not proved: that the run guard always holds (C04_skips_always_justified_stmt). '
+        'completeness. '
         'Every refutation the implementation gives on the explored programs is tested against a real run (native pre-filter, confirmed by the '
         'extracted cell-by-cell spec); falsified refutations are attributed to the two recorded call sites by model counterfactuals '
-        '(KNOWN-FINDING), anything else is a VIOLATION with the program/goal/depth as replay. Unguarded global soundness is not a theorem here.',
+        '(KNOWN-FINDING), anything else is a VIOLATION with the program/goal/depth as replay. Unguarded soundness of the faithful code is FALSE (F1, F2), hence level other.',
    note=COMMON_NOTE + 'Known findings F1 (reason.rs:175-177) and F2 (instrs.rs params) are open: their repair changes pinned test counts. '
         'Attribution by counterfactual assumes the faithful model agrees with the code on the case (checked).',
-   tech='Rocq/Coq refutation theorems + monotonicity proof + model/implementation correspondence + extracted-spec oracle exploration'),
+   tech='Rocq/Coq global soundness theorem for the repaired model + refutation theorems for the faithful one + model/implementation correspondence + extracted-spec oracle exploration'),
  'C05': dict(cat='proof', sec='DESIGN.md §6 C05, §5 F2, §12',
    text='Coq theorem C05_seg_verdicts_true over the Gallina model of segment.rs, for the trait entry point with the true table size (0 < S, 0 < C, program within the table): '
         'refuted(halt) => the machine never halts, refuted(spin-out) => never spins out, and the positive verdicts halt / spinout / blank => the machine does it, repeat => it runs forever; '
